@@ -168,7 +168,7 @@ func gcBetweenRuns() {
 		// runs with multi-megabyte payloads: collect as soon as the
 		// live heap is large (cheap to sample)
 		metrics.Read(heapSample)
-		if heapSample[0].Value.Kind() != metrics.KindUint64 || heapSample[0].Value.Uint64() < 256<<20 {
+		if heapSample[0].Value.Kind() != metrics.KindUint64 || heapSample[0].Value.Uint64() < 96<<20 {
 			return
 		}
 	}
